@@ -102,17 +102,35 @@ Definition origin_of (q : req) : bytes := first_val (q_origin q).
 Definition is_preflight (q : req) : bool :=
   bytes_eqb (q_method q) s_OPTIONS && nonempty (origin_of q) && mem (first_val (q_acrm q)) supported_methods.
 
+(* the product's rule list: (does the rule's condition match this request, rule); the first matching rule is used
+   and the loop stops there.  Condition evaluation itself is external (bfe_basic/condition). *)
+Definition rules := list (bool * rule).
+Fixpoint find_rule (rs : rules) : option rule :=
+  match rs with
+  | [] => None
+  | (true, r) :: _ => Some r
+  | (false, _) :: rest => find_rule rest
+  end.
+(* ruleListConvert: every rule of the list must convert *)
+Definition rules_ok (rs : rules) : bool := forallb (fun mr => rule_ok (snd mr)) rs.
+
 (* corsHandler at HandleReadResponse: always returns BfeHandlerGoOn; h = backend response header *)
-Definition cors_handler (r : rule) (q : req) (h : hdrs) : hdrs :=
+Definition cors_handler (rs : rules) (q : req) (h : hdrs) : hdrs :=
   if negb (nonempty (origin_of q)) then h
   else if is_preflight q then h
   else if negb (q_has_rules q) then h
-  else grant_nonpreflight r (origin_of q) h.
+  else match find_rule rs with
+       | Some r => grant_nonpreflight r (origin_of q) h
+       | None => h
+       end.
 (* corsPreflightHandler at HandleFoundProduct: Some header = BfeHandlerResponse with a 204 response *)
-Definition preflight_handler (r : rule) (q : req) : option hdrs :=
+Definition preflight_handler (rs : rules) (q : req) : option hdrs :=
   if negb (is_preflight q) then None
   else if negb (q_has_rules q) then None
-  else Some (grant_preflight r (origin_of q) empty_hdrs).
+  else match find_rule rs with
+       | Some r => Some (grant_preflight r (origin_of q) empty_hdrs)
+       | None => None
+       end.
 
 (* ================= specification (written from the property text) ================= *)
 (* the rule allows this request origin *)
@@ -133,7 +151,8 @@ Definition vary_lists_origin (lines : list bytes) : bool := existsb token_is_ori
 Definition vary_keeps (before after : list bytes) : bool :=
   forallb (fun t => mem t (vary_tokens after)) (vary_tokens before).
 
-(* The property for one callback: [before] is the header before the callback, [after] after it. *)
+Definition hdrs_same (a b : hdrs) : bool := lb_eqb (h_vary a) (h_vary b) && aca_same a b.
+(* The property for one callback and the rule that applies: [before] is the header before the callback, [after] after it. *)
 Definition cors_spec (r : rule) (q : req) (before after : hdrs) : bool :=
   vary_keeps (h_vary before) (h_vary after)
   && (aca_same before after
@@ -141,3 +160,11 @@ Definition cors_spec (r : rule) (q : req) (before after : hdrs) : bool :=
           && lb_eqb (h_acao after) [expected_acao (r_origins r) (origin_of q)]
           && (lb_eqb (h_acac after) (h_acac before) || (r_cred r && lb_eqb (h_acac after) [s_true]))
           && (bytes_eqb (expected_acao (r_origins r) (origin_of q)) s_star || vary_lists_origin (h_vary after)))).
+
+(* with a rule list: the rule that applies is the first whose condition matches; if none matches, or the product has
+   no rules, nothing may change *)
+Definition cors_spec_rules (rs : rules) (q : req) (before after : hdrs) : bool :=
+  match (if q_has_rules q then find_rule rs else None) with
+  | Some r => cors_spec r q before after
+  | None => hdrs_same before after
+  end.
